@@ -5,7 +5,8 @@ Model   : lean/JRV/Model/Server.lean (batchLoop, singleDispatch)     Theorems: l
 Tie     : extracted facts (the two `except Exception` faults carry the request id) + correspondence of the id
           sequence of the reply (empty / single / array, ids in order) between model and real dispatcher.
 Monitor : entry-by-entry id echo and response count, written from the property text (harness/servercases.py
-          expect_entry / monitor_c03).
+          expect_entry / monitor_c03); no reply at all (the dispatcher raised) for entries that must be answered is a
+          violation of "exactly one response per non-notification entry".
 """
 import servercases as sc
 
@@ -25,6 +26,7 @@ REQUIRED_THEOREMS = [
     "C03_gen_notifIds",
     "C03_gen_batchLoopOverRequest",
     "C03_gen_safeJdumpsGuarded",
+    "C03_gen_safeJdumpsIdProbe",
 ]
 
 MONITORS = [("id-echo", sc.monitor_c03)]
@@ -34,11 +36,15 @@ RULE = ("ids over absent/null/''/0/negative/fractional/strings/booleans/arrays/o
         "orders x 2 versions x 2 registries) and random up to 6; default, instance and custom dispatchers; callables that "
         "return, raise or return a value whose conversion fails or which the JSON library rejects ({(1,2):3}, a set, "
         "10**5000, an instance — alone and next to serialisable results in a batch), ids without JSON value (beans), "
-        "ids with escaped lone surrogates, batches of 64/120/257/1000 entries; distinct_nontrivial as for C02")
+        "ids with escaped lone surrogates, batches of 64/120/257/1000 entries; 17 structured ids (empty / nested arrays and "
+        "objects, holding null / false / 0) x 15 response paths x single / every batch position x both forms and versions, with "
+        "and without a pool (class:structid/...); ids the class translator builds from builtin / standard-library types "
+        "(class:translated/...); a dispatcher that raises instead of replying is a violation (no response for the entries to "
+        "answer); distinct_nontrivial as for C02")
 
 
 def run(ctx):
-    em = {"single": 1, "batch": 2.5, "damaged": 0.2, "descriptor": 0.8, "noise": 0.3, "pool": 0.6, "randreg": 0.4, "post": 0.02,
+    em = {"translated": 0.5, "structid": 1, "malformed": 0.05, "single": 1, "batch": 2.5, "damaged": 0.2, "descriptor": 0.8, "noise": 0.3, "pool": 0.6, "randreg": 0.4, "post": 0.02,
           "exhaustive_batch": True}
     sc.standard_run(ctx, "C03", MONITORS, sc.proj_ids, em, RULE)
 
